@@ -150,6 +150,11 @@ impl Database {
     #[cfg(feature = "_merge")]
     pub fn merge(&mut self, other: &Database) -> Result<MergeLog, MergeError> {
         let mut log = MergeLog::default();
+        // The root group is never found by find_node_location (it only searches below the root),
+        // so its own name, notes, icon and settings have to be merged here.
+        if self.root.uuid == other.root.uuid {
+            log.append(&self.root.merge_with(&other.root)?);
+        }
         log.append(&self.merge_group(vec![], &other.root, false)?);
         log.append(&self.merge_deletions(&other)?);
         Ok(log)
